@@ -176,6 +176,21 @@ def build(spec):
             stacked = jax.tree_util.tree_map(lambda *xs: jnp.stack(xs), *[p[0] for p in parts])
             bij = B.Scan(eqx.combine(stacked, parts[0][1]))
         return D.Transformed(base, B.Invert(bij) if spec.get("invert", True) else bij)
+    if kind in ("coupling_layer", "maf_layer"):
+        # ONE layer through its public constructor (the flow factories fix untransformed_dim = dim // 2 and add permutations)
+        key = jr.PRNGKey(seed)
+        tr = B.Affine() if spec.get("transformer", "affine") == "affine" else None
+        if spec.get("transformer") == "spline":
+            iv = spec.get("interval", [-4.0, 4.0])
+            tr = B.RationalQuadraticSpline(knots=spec.get("knots", 3), interval=(float(iv[0]), float(iv[1])))
+        if spec.get("transformer") == "loc":
+            tr = B.Loc(jnp.asarray(0.0))
+        if kind == "coupling_layer":
+            lay = B.Coupling(key, transformer=tr, untransformed_dim=spec["untransformed_dim"], dim=dim, cond_dim=spec.get("cond_dim"),
+                             nn_width=spec.get("width", 3), nn_depth=spec.get("depth", 1))
+        else:
+            lay = B.MaskedAutoregressive(key, transformer=tr, dim=dim, cond_dim=spec.get("cond_dim"), nn_width=spec.get("width", 3), nn_depth=spec.get("depth", 1))
+        return D.Transformed(base, B.Invert(lay) if spec.get("invert", True) else lay)
     if kind == "container":
         v = spec["variant"]
         aff = lambda d: B.Affine(f32(r.normal(size=d) * 0.3), f32(_loguniform(r, 0.5, 2.0, d)))  # noqa: E731
